@@ -55,7 +55,21 @@ class C03(Prop):
             fields = [("pipe", [pipe])]
             if rng.random() < 0.3:
                 fields = [("closure", ["1"])] + fields
+            if rng.random() < 0.5:
+                # same pipeline, adjacent operators applied without a box in between (monomorphic static types)
+                fields = [("mono", [str(rng.choice([1, 2]))])] + fields
             out.append(Case("pipe", flavor, fields, evs, {"kind": "chain"}))
+        # every ordered pair of operators applied back to back on the concrete operator types (`mono 1`):
+        # the receiver of the second call has the static type of the first operator's struct
+        mv = pg.mono_variants()
+        hot_evs = [["sub"]] + [["emit", "0", ["n", str(v)]] for v in (1, 2, 3, 2)] + [["emit", "0", "c"]]
+        for a in mv:
+            for b in mv:
+                out.append(Case("pipe", "local", [("mono", ["1"]), ("pipe", [b + [a + [["hot", "0"]]]])],
+                                hot_evs, {"kind": "mono-pair"}))
+                out.append(Case("pipe", rng.choice(["local", "threads"]),
+                                [("mono", ["1"]), ("pipe", [b + [a + [["iter", "1", "2", "3"]]]])],
+                                [["sub"]], {"kind": "mono-pair"}))
         return out
 
     def oracle(self, case, lines, model_lines=None):
